@@ -25,7 +25,7 @@ func init() {
 			"(healthy got everything in order; what the stalled one got is the published sequence minus runs that begin at a key-frame packet and end just before one). " +
 			"distinct = decision-sequence hash; non-trivial = at least one pre-emption or stall",
 		Assumptions:    []string{"the limit (1000) and 'one GOP' are taken from the property statement, not from the code", "video packets are single NAL units (key-frame start == key-frame packet)"},
-		RequiredProbes: []string{"c04.discard-started", "c04.discard-ended", "c04.backlog-over-limit", "c04.flv-consumer-panics"},
+		RequiredProbes: []string{"c04.discard-started", "c04.discard-ended", "c04.backlog-over-limit", "c04.flv-consumer-panics", "c04.parameter-sets-mid-gop"},
 	})
 }
 
@@ -44,6 +44,7 @@ type c04Cons struct {
 	gate     chan struct{}
 	stalled  bool
 	panicAt  int
+	closeBad int // 1: Close panics too, 2: Close blocks for a simulated minute
 	yieldIn  bool
 	consumed int
 	pubN     int
@@ -89,6 +90,14 @@ func (c *c04Cons) Close() error {
 	c.mu.Lock()
 	c.closed++
 	c.mu.Unlock()
+	switch c.closeBad {
+	case 1:
+		c.w.Fault("consumer-close-panics")
+		panic("injected panic in Close")
+	case 2:
+		c.w.Fault("consumer-close-blocks")
+		c.w.Sleep(time.Minute)
+	}
 	return nil
 }
 
@@ -142,6 +151,11 @@ func buildC04Media(tier string) sim.Scenario {
 		G = []int{25, 1, 3, 120, 400, 0, 1500}[tp.Choose(7)]
 		N = []int{1300, 2400, 4000}[tp.Choose(3)]
 		withAudio := tp.Bool()
+		// cameras repeat their parameter sets, not only in front of key frames: an SPS and a PPS packet in the middle of GOPs
+		midParams := (G == 0 || G >= 25) && tp.OneIn(3)
+		if midParams {
+			w.Probe("c04.parameter-sets-mid-gop")
+		}
 		// packets
 		vseq, aseq := uint16(0), uint16(0)
 		nv := 0
@@ -156,6 +170,12 @@ func buildC04Media(tier string) sim.Scenario {
 			key := false
 			if (G > 0 && nv%G == 0) || (G == 0 && nv == 0) {
 				typ, key = 5, true
+			}
+			if midParams && !key && ((G > 0 && nv%G == G/2) || (G == 0 && nv%200 == 100) || (G > 0 && nv%G == G/2+1) || (G == 0 && nv%200 == 101)) {
+				typ = 7 // SPS, then PPS
+				if (G > 0 && nv%G == G/2+1) || (G == 0 && nv%200 == 101) {
+					typ = 8
+				}
 			}
 			nv++
 			pkts = append(pkts, mkRTP(rtp.ChannelVideo, 96, vseq, uint32(i)*3000, true, nalH264(typ, i, 12)))
@@ -198,6 +218,7 @@ func buildC04Media(tier string) sim.Scenario {
 		panickerFLV := false
 		if tp.Bool() {
 			panicker = &c04Cons{w: w, name: "panicker", panicAt: 1 + tp.Choose(N/2)}
+			panicker.closeBad = []int{0, 0, 1, 2}[tp.Choose(4)] // a consumer that has panicked may well fail in its Close too
 			panickerFLV = tp.OneIn(3)
 			if panickerFLV {
 				panicker.panicAt = 1 + tp.Choose(20) // tags: metadata, configuration, then one per frame
